@@ -276,16 +276,21 @@ def gen_resume_case(rng, cid):
 def gen_big_case(rng, cid, conc):
     """One reconcile batch with more indexed candidates than one existence-check window: a spoke
     returning with many lost acknowledgements, hub-side removals of early, middle and late files."""
-    n = min(conc + rng.randint(1, conc // 2 + 8), 90) if conc >= 1 else 40
+    n = min(conc + rng.randint(8, conc // 2 + 12), 120) if conc >= 1 else 40
     names = set()
     while len(names) < n:
         names.add("metrics/cpu/2026/08/%02d/%02d/cpu_%03d.parquet" % (rng.choice([7, 8]), rng.choice([13, 14]), rng.randint(1, 99)))
     paths = sorted(names)
     D = {"k": "deliver", "keep": -1, "flip": -1, "lost": True, "regfail": False}
     events = [{"op": "create", "p": i + 1, "b": bytes([i % 251, (7 * i) % 256]).hex()} for i in range(n)]
-    lost = [dict(D, lost=rng.random() < 0.85) for _ in range(n)]
+    # the number of indexed candidates of the next reconcile (= lost acknowledgements) must EXCEED one
+    # window whatever the random draws are: at most 3 acknowledgements arrive, all others are lost
+    acked = set(rng.sample(range(n), rng.randint(0, 3)))
+    lost = [dict(D, lost=i not in acked) for i in range(n)]
     events.append({"op": "run", "crash": -1, "rec": "ok", "puts": lost})
-    for p in sorted(set([rng.randint(1, max(1, min(conc, n) // 2)), rng.randint(1, n), n - rng.randint(0, 2)])):
+    cand = [i + 1 for i in range(n) if i not in acked]
+    early = rng.choice(cand[:max(1, min(conc, len(cand)) // 2)])      # always inside the FIRST window
+    for p in sorted(set([early, rng.choice(cand), cand[-1 - rng.randint(0, 2)]])):
         events.append({"op": "hubremove", "p": p})
     if rng.random() < 0.5:
         events.append({"op": "hubmark", "p": rng.randint(1, n)})
